@@ -170,6 +170,28 @@ def run_text(S_, lang, n, which, stats, findings):
             findings.append({'level': 'text:' + which, 'lang': lang, 'n': n, 'kind': 'illformed', 'msg': 'ill-formed Ok value', 'where': 'parse_pattern_nosubst', 'codepoints': string_text(m, cs)})
     stats['fenc'] |= set(ex.inlined); stats['lmod'] |= ex.modelled; stats['solver_s'] += ex.t_solver; stats['branches'] += ex.n_branches
 
+MULTI_SEEDS = ['?a == (u ?b)', '?a == (app ?b ?c), ?b == (u ?a)', '?a==(lam $x ?b),?b==(var $x)']
+def run_text_seeded(S_, lang, seed, max_dev, stats, findings):
+    """MultiPattern::parse on every string that differs from a valid multi-pattern text in at most max_dev scalar values"""
+    R = S_.resolver; R.tymap.clear(); R.tymap.update({'L': lang})
+    ex = S_.executor(); ex.stub_named = True
+    fn = R.M('MultiPattern::parse'); n = len(seed)
+    def entry(ex_):
+        ex_._named_n = 0
+        s, cs = mk_string(ex_, n)
+        devs = [z3.If(c == ord(ch), z3.BitVecVal(0, 8), z3.BitVecVal(1, 8)) for c, ch in zip(cs, seed)]
+        ex_.assume(z3.ULE(sum(devs[1:], devs[0]), max_dev))
+        r = ex_.call(fn, [s])
+        return (r.disc,)
+    cs = [z3.BitVec('ch%d' % i, 32) for i in range(n)]
+    for p in ex.explore(entry, max_paths=50000):
+        stats['paths'] += 1
+        m = ex_model(p['pc'])
+        if p['kind'] == 'panic':
+            findings.append({'level': 'text:multi', 'lang': lang, 'n': n, 'kind': 'panic', 'msg': p['result']['msg'], 'where': short_fn(p['result']['where'] or ''), 'codepoints': string_text(m, cs)})
+        elif p['result'][0] == 0: stats.setdefault('rt_multi', []).append((lang, tuple(string_text(m, cs))))
+    stats['fenc'] |= set(ex.inlined); stats['lmod'] |= ex.modelled; stats['solver_s'] += ex.t_solver; stats['branches'] += ex.n_branches
+
 def classify(f):
     """role key of a finding (input class), used for the known-findings file"""
     w = re.sub(r'[^\w]', '_', f['where'].split('::')[-1])[:40]
@@ -178,7 +200,7 @@ def classify(f):
 def native_replay(f, profile='release'):
     cps = f.get('codepoints')
     if cps is None: cps = [ord(c) for c in f['text']]
-    kind = 'multi' if f['level'].endswith('multi') else ('recexpr' if f['level'].endswith('recexpr') else 'pattern')
+    kind = 'multirt' if f['level'].endswith('multirt') else 'multi' if f['level'].endswith('multi') else ('recexpr' if f['level'].endswith('recexpr') else 'pattern')
     txt = 'case parse:r %s %s\ntext %s\n' % (f['lang'], kind, ' '.join(str(c) for c in cps))
     r = native.run_cases(txt, profile).get('parse:r')
     return r
@@ -186,7 +208,7 @@ def native_replay(f, profile='release'):
 def confirmed(f, r):
     if r is None: return False
     res = r['result']
-    if f['kind'] == 'roundtrip': return True      # found natively
+    if f['kind'] == 'roundtrip': return not (res.startswith('ok same=true') or res.startswith('err'))      # found natively; the replay repeats it
     if f['kind'] == 'panic': return res.startswith('panic')
     return res.startswith('ok wf=false')
 
@@ -208,13 +230,15 @@ def run(tier, seed=0):
     for n in range(0, NTXT + 1): plan.append(('text:pattern', 'Lb', n))
     for n in range(0, NTXT + 1): plan.append(('text:multi', 'Lb', n))
     for n in range(0, NTXT + 1): plan.append(('text:recexpr', 'Lb', n))
+    for seed in MULTI_SEEDS: plan.append(('seeded-multi', 'Lb', seed))
     for kind, lang, n in plan:
         before = stats['paths']; nf = len(findings); t1 = time.time()
         try:
             if kind == 'tokens': run_tokens(S_, lang, n, stats, findings)
             elif kind == 'seeded': run_seeded(S_, lang, n, 1 if tier == 'quick' else 2, stats, findings)
+            elif kind == 'seeded-multi': run_text_seeded(S_, lang, n, 1, stats, findings)
             else: run_text(S_, lang, n, kind.split(':')[1], stats, findings)
-            samples.append({'obligation': ('%s %s length %d' % (kind, lang, n)) if kind != 'seeded' else 'token sequences within %d deviation(s) of the valid text "%s" (%s)' % (1 if tier == 'quick' else 2, n, lang), 'paths': stats['paths'] - before, 'findings': len(findings) - nf, 'wall_s': round(time.time() - t1, 2)})
+            samples.append({'obligation': ('%s %s length %d' % (kind, lang, n)) if kind not in ('seeded', 'seeded-multi') else ('strings within 1 deviating scalar value of the valid multi-pattern text "%s" (%s)' % (n, lang)) if kind == 'seeded-multi' else 'token sequences within %d deviation(s) of the valid text "%s" (%s)' % (1 if tier == 'quick' else 2, n, lang), 'paths': stats['paths'] - before, 'findings': len(findings) - nf, 'wall_s': round(time.time() - t1, 2)})
         except (Unsupported, Budget) as e:
             inconclusive.append('%s %s %s: %s' % (kind, lang, n, str(e)[:300]))
     # print/parse round trip on every parsed value: one representative text per Ok path, run natively
@@ -231,6 +255,17 @@ def run(tier, seed=0):
             if r['result'].startswith('err'): continue        # tokens left over after the pattern: Pattern::parse rejects the text
             if not r['result'].startswith('ok same=true'):
                 findings.append({'level': 'tokens', 'lang': lang, 'n': len(tx.split()), 'kind': 'roundtrip', 'msg': 'parse(print(parse(text))) differs: ' + r['result'][:120], 'where': 'Display_for_Pattern', 'text': tx})
+    mtexts = sorted(set(stats.get('rt_multi', [])))
+    if mtexts:
+        lines = ['case parse:mrt%d %s multirt\ntext %s\n' % (i, lang, ' '.join(str(c) for c in cps)) for i, (lang, cps) in enumerate(mtexts)]
+        nat = native.run_cases(''.join(lines))
+        for i, (lang, cps) in enumerate(mtexts):
+            r = nat.get('parse:mrt%d' % i)
+            if r is None: continue
+            rt_checked += 1
+            if r['result'].startswith('err'): continue
+            if not r['result'].startswith('ok same=true'):
+                findings.append({'level': 'text:multirt', 'lang': lang, 'n': len(cps), 'kind': 'roundtrip', 'msg': 'parse(print(parse(text))) fails or differs: ' + r['result'][:120], 'where': 'Display_for_MultiPattern', 'codepoints': list(cps)})
     known = common.load_known()
     violations = {}; known_hits = {}; validated = 0
     for f in findings:
